@@ -27,9 +27,33 @@ def inputs(tier):
     for ka, kb in [(a, b) for a in acids for b in acids] + [(a, b) for a in bases for b in bases] + [(a, b) for a in acids[:3] for b in bases[:3]]:
         out += [dict(src='corpus', d=corpus.pair_desc(ka, kb, d, l)) for d in ds for l in lv]
     out += [dict(src='corpus', d=d) for d in corpus.cutouts(tier, radius=10.0, every=(1 if tier == 'thorough' else 3))]
+    # partners that print the same label (two ligand copies in one chain; residues differing only in insertion code):
+    # several determinants of one group then carry the partner's label
+    for ks in (('ASP', 'ACT', 'ACT'), ('GLU', 'GLU', 'GLU'), ('ASP', 'ASP', 'ASP'), ('HIS', 'GLU', 'GLU'), ('GLU', 'PYR', 'PYR'), ('CYS', 'CYS', 'CYS'),
+               ('TYR', 'ASP', 'ASP'), ('LYS', 'MAM', 'MAM')):
+        for lv in ('mid', 'deep'):
+            out.append(dict(src='samelabel', d=corpus.cluster_desc(ks, 'star', 3.0, lv)))
+    # a group that is penalised by covalent coupling (N-terminal Asp) and is also half of a non-covalently coupled pair
+    for tb in ([['B', 25]], [['A', 25]], [['A', 25], ['B', 25]]):
+        d = corpus.cutout_desc('1HPX', 'A', 24, 12.0)
+        d['ter_before'] = tb
+        out.append(dict(src='corpus', d=d))
     if tier == 'thorough':
         out += [dict(src='corpus', d=corpus.file_desc(k)) for k in ('3SGB', '1HPX')]
     return out
+
+
+def build(inp, seed):
+    s = corpus.build(inp['d'], seed)
+    if inp['src'] == 'samelabel':
+        # parts 2 and 3 (chains B and C) get the same chain id; protein fragments also the same numbers, told apart by an insertion code
+        for a in s.atoms:
+            if a.chain == 'C':
+                a.chain = 'B'
+                if a.rec == 'ATOM  ':
+                    a.resnum -= 10
+                    a.icode = 'A'
+    return s
 
 
 def plan(tier, seed):
@@ -45,7 +69,7 @@ def plan(tier, seed):
 
 
 def run_case(case, ctx, acc):
-    s = corpus.build(case['d'], ctx.seed)
+    s = build(case, ctx.seed)
     text = gen.to_text(s)
     try:
         pk.seam_coupling_analysis(True)
